@@ -119,6 +119,7 @@ type FuncResult struct {
 // VerifyFunction generates all obligations of one function.
 func VerifyFunction(P *Program, C *Contracts, fn *ssa.Function, fc *FuncContract, cfg *Config) (res *FuncResult) {
 	name := fn.String()
+	resetGlobals()
 	res = &FuncResult{Name: name, Fn: fn, Contract: fc, Notes: map[string]int{}}
 	e := &Engine{ctx: NewCtx(), prog: P.prog, contracts: C, heapSorts: map[string]string{}, topFn: fn, topName: shortName(name),
 		ordinals: map[string]int{}, notes: res.Notes, cfg: cfg, fc: fc}
@@ -344,4 +345,15 @@ func VerifyGlobalInit(P *Program, C *Contracts, gi GlobalInv) (obs []*Obligation
 	goal := e.evalBool(gi.Expr, env)
 	e.oblige(st, "init", goal, gi.Pos, "initialiser establishes: "+gi.Src, gi.Tags)
 	return e.obs, ""
+}
+
+// resetGlobals makes the encoding of one function independent of what was verified before it.
+func resetGlobals() {
+	typeTags = map[string]int{}
+	typeTagTypes = map[int]types.Type{}
+	embIndex = map[string]int{}
+	globalRefs = map[string]int{}
+	refHeaps = map[string]bool{}
+	mutableCache = map[*ssa.Global]bool{}
+	quantN = 0
 }
